@@ -525,8 +525,20 @@ def run_mkproc(parts):
     for d in parts["inPorts"] + parts["inOut"] + parts["outPorts"] + parts["internal"]:
         um(d)
 
+    stale = parts.get("stale", 0)
+
+    def pred_ref(n, k):
+        # a predecessor is identified by its NAME: a reference may be another object describing the same unit — a copy, or
+        # a stale version of it (width changed by attr.evolve and the parts re-assembled); seeded change C12-14
+        m = models[n]
+        if stale and (stale + k) % 3 == 0:
+            return UnitModel(m.name, m.width + 1, list(m.capabilities), m.lock_info, list(m._mem_acl))
+        if stale and (stale + k) % 3 == 1:
+            return UnitModel(m.name, m.width, list(m.capabilities), m.lock_info, list(m._mem_acl))
+        return m
+
     def fu(d):
-        return FuncUnit(um(d), [models[n] for n in d["preds"]])
+        return FuncUnit(um(d), [pred_ref(n, k) for k, n in enumerate(d["preds"])])
 
     # the four arguments are typed `Iterable[...]`: lists, tuples, generators, iterators and `map` objects are all legal
     # (upstream's own post-order test passes a generator); a one-shot iterable must be read once (seeded change C12-9)
@@ -609,6 +621,8 @@ def permuted(rng, parts, internal_order=None):
         rng.shuffle(f["preds"])
     if rng.random() < 0.5:
         p["shape"] = rng.randrange(625)     # list / tuple / generator / iterator / map for each of the four arguments
+    if rng.random() < 0.3:
+        p["stale"] = rng.randint(1, 9)      # predecessor references that are copies / stale versions of the unit's model
     return p
 
 
